@@ -56,7 +56,10 @@ def Served (w : World) (s : State) : Task → Prop
       | none =>
         match findFrom (w.mod m) n with
         | some p => (m, n) ∈ s.exportFrom ∧ Sched s (.reqName p.2.1 p.2.2)
-        | none => n ≠ 0 → ∀ x ∈ (w.mod m).stars, (m, x) ∈ s.stars ∧ Sched s (.reqName x n)
+        | none =>
+          match starProvider w (w.mod m) n with
+          | some x => (m, x) ∈ s.stars ∧ Sched s (.reqName x n)
+          | none => ∀ x ∈ (w.mod m).stars, (m, x) ∈ s.stars
   | .reqAll m wd =>
     m ∈ s.modules ∧
     (∀ d ∈ (w.mod m).decls, exportedFor wd d = true → Sched s (.decl m d.name)) ∧
@@ -115,8 +118,9 @@ theorem served_mono (w : World) {s s' : State} (h : Le s s') (t : Task) (hs : Se
         | some q => simp only [hq] at hs2 ⊢; exact ⟨h.exportFrom _ hs2.1, h.sched _ hs2.2⟩
         | none =>
           simp only [hq] at hs2 ⊢
-          intro hn x hx
-          exact ⟨h.stars _ (hs2 hn x hx).1, h.sched _ (hs2 hn x hx).2⟩
+          cases hsp : starProvider w (w.mod m) n with
+          | some x => simp only [hsp] at hs2 ⊢; exact ⟨h.stars _ hs2.1, h.sched _ hs2.2⟩
+          | none => simp only [hsp] at hs2 ⊢; exact fun x hx => h.stars _ (hs2 x hx)
   | reqAll m wd =>
     obtain ⟨h0, h1, h2, h3, h4⟩ := hs
     exact ⟨h.modules _ h0, fun d hd he => h.sched _ (h1 d hd he),
@@ -174,10 +178,10 @@ theorem le_stepReqName (w : World) (s : State) (m n : Nat) : Le s (stepReqName w
       · exact ⟨fun _ h => h, fun _ h => h, fun x h => mem_ins_of_mem _ x _ h, fun _ h => h, fun _ h => h,
           fun x h => mem_ins_of_mem _ x _ h, fun t ht => ht.elim Or.inl fun h => Or.inr (by simp [h])⟩
       · split
-        · exact ⟨fun _ h => h, fun _ h => h, fun _ h => h, fun _ h => h, fun _ h => h,
-            fun x h => mem_ins_of_mem _ x _ h, fun t ht => ht⟩
-        · exact ⟨fun _ h => h, fun _ h => h, fun _ h => h, fun x h => mem_insAll_of_mem _ _ x h, fun _ h => h,
+        · exact ⟨fun _ h => h, fun _ h => h, fun _ h => h, fun x h => mem_ins_of_mem _ x _ h, fun _ h => h,
             fun x h => mem_ins_of_mem _ x _ h, fun t ht => ht.elim Or.inl fun h => Or.inr (by simp [h])⟩
+        · exact ⟨fun _ h => h, fun _ h => h, fun _ h => h, fun x h => mem_insAll_of_mem _ _ x h, fun _ h => h,
+            fun x h => mem_ins_of_mem _ x _ h, fun t ht => ht⟩
 
 theorem le_stepLocal (w : World) (s : State) (m l : Nat) : Le s (stepLocal w s m l) := by
   unfold stepLocal
@@ -236,12 +240,13 @@ theorem served_stepReqName (w : World) (s : State) (m n : Nat) :
         exact ⟨mem_ins _ _, by simp only [hd, hp, hq]; exact ⟨mem_ins _ _, Or.inr (by simp)⟩⟩
       · rename_i hq
         split
-        · rename_i h0
-          exact ⟨mem_ins _ _, by simp only [hd, hp, hq]; intro hn; exact absurd h0 hn⟩
-        · refine ⟨mem_ins _ _, ?_⟩
-          simp only [hd, hp, hq]
-          intro _ x hx
-          exact ⟨mem_insAll _ _ _ (List.mem_map.mpr ⟨x, hx, rfl⟩), Or.inr (List.mem_append.mpr (Or.inr (List.mem_map.mpr ⟨x, hx, rfl⟩)))⟩
+        · rename_i x hsp
+          exact ⟨mem_ins _ _, by simp only [hd, hp, hq, hsp]; exact ⟨mem_ins _ _, Or.inr (by simp)⟩⟩
+        · rename_i hsp
+          refine ⟨mem_ins _ _, ?_⟩
+          simp only [hd, hp, hq, hsp]
+          intro x hx
+          exact mem_insAll _ _ _ (List.mem_map.mpr ⟨x, hx, rfl⟩)
 
 theorem served_stepLocal (w : World) (s : State) (m l : Nat) :
     Served w (stepLocal w s m l) (.local m l) := by
